@@ -135,6 +135,13 @@ impl Instant {
         }
     }
 
+    pub fn checked_add(&self, d: Duration) -> Option<Instant> {
+        match self {
+            Instant::Virt(t) => u64::try_from(d.as_nanos()).ok().and_then(|n| t.checked_add(n)).map(Instant::Virt),
+            Instant::Real(t) => t.checked_add(d).map(Instant::Real),
+        }
+    }
+
     pub fn duration_since(&self, earlier: Instant) -> Duration {
         self.saturating_duration_since(earlier)
     }
